@@ -173,7 +173,7 @@ _DISPATCH_BASE = {
     "name": "dispatch",
     "mc": [{"module": "Dispatch", "cfg": "Dispatch_mc.cfg"}],
     "pkg": "internal/app", "test": "TestVerif_Dispatch", "harness_files": ["stack_test.go", "dispatch_test.go"],
-    "trace": {"module": "DispatchTrace", "cfg": "Dispatch_trace.cfg", "deque": True},
+    "trace": {"module": "DispatchTrace", "cfg": "Dispatch_trace.cfg", "deque": True, "params": {"Scopes": "{}"}},
     "nontrivial": lambda s: any(k != "ok" for st in s["steps"] if st["op"] != "health" for k in st["plans"].values())
                             or any(b != "up" for b in s.get("boot", {}).values()),
 }
@@ -235,14 +235,17 @@ PROPS["C05"] = {
 }
 PROPS["C05"]["parts"][0]["quick"]["sample"] = 900
 
+# the global and the translator scope of the statistics are C19's own clauses (and KF-C19-3 is C19's finding)
+_C19_TRACE = dict(_DISPATCH_BASE["trace"], params={"Scopes": '{"global", "translator"}'})
 PROPS["C19"] = {
     "rule": _DISPATCH_RULE + " For C19 the in-flight gauge is sampled by the backend while it holds each attempt and "
             "all gauges/counters are read at quiescence.",
     "exhaustive": False,
     "assumptions": ["quiescence = all clients returned and the collector's numbers unchanged for 150 ms"],
-    "parts": [dpart([_G_SINGLE2, _G_BURST, _G_BREAKER, _G_TRSTATS, _G_TRSTATS_NATIVE],
-                    [_G_SINGLE3, _G_BURST, _G_BREAKER, _G_TWOSTEP, _G_FAIL, _G_TRSTATS, _G_TRSTATS_NATIVE], 8000),
-              dict(dpart([_G_PANIC], [_G_PANIC]), name="panic", mc=[], env={"VERIF_PAR": "1"})],
+    "parts": [dict(dpart([_G_SINGLE2, _G_BURST, _G_BREAKER, _G_TRSTATS, _G_TRSTATS_NATIVE],
+                         [_G_SINGLE3, _G_BURST, _G_BREAKER, _G_TWOSTEP, _G_FAIL, _G_TRSTATS, _G_TRSTATS_NATIVE], 8000),
+                   trace=_C19_TRACE),
+              dict(dpart([_G_PANIC], [_G_PANIC]), name="panic", mc=[], env={"VERIF_PAR": "1"}, trace=_C19_TRACE)],
 }
 
 
